@@ -160,7 +160,7 @@ def inputs_for(prop, tier):
     q = tier == "quick"
     items = []
     if prop == "C04":
-        for big in (8200, 9000, 20000, 70000):
+        for big in (8170, 8191, 8200, 9000, 20000, 70000):
             items.append({"kind": "forced-remap", "big": big})
             items.append({"kind": "forced-remap-cold", "big": big})
         for _ in range(3):
